@@ -15,6 +15,7 @@ import sys, os, json, hashlib, subprocess, time, re, shutil, concurrent.futures 
 ROOT = os.path.dirname(os.path.abspath(__file__))
 REPO = os.environ.get('VERIF_REPO', '/repo')
 BUILD = os.path.join(ROOT, 'build')
+OUT = os.environ.get('VERIF_OUT', ROOT)  # where evidence/ and replays/ are written (mutation runs redirect it)
 NCPU = int(os.environ.get('VERIF_JOBS', '16'))
 CXX = os.environ.get('VERIF_CXX', 'g++')
 BASEFLAGS = ['-std=c++17', '-DTAO_PEGTL_VERIF', '-I', os.path.join(REPO, 'include'), '-I', ROOT,
@@ -201,8 +202,8 @@ def replay_case(binp, case, tier='quick'):
 def finish_check(pid, tier, level, agg, unit_bins, t_start, rule, assumptions, extra_cov=None, min_nontrivial=2):
     known = load_known()
     seed = int(os.environ.get('VERIF_SEED', '0') or 0)
-    os.makedirs(os.path.join(ROOT, 'evidence'), exist_ok=True)
-    rdir = os.path.join(ROOT, 'replays', pid)
+    os.makedirs(os.path.join(OUT, 'evidence'), exist_ok=True)
+    rdir = os.path.join(OUT, 'replays', pid)
     shutil.rmtree(rdir, ignore_errors=True)
     os.makedirs(rdir, exist_ok=True)
     new_viol = []
@@ -268,7 +269,7 @@ def finish_check(pid, tier, level, agg, unit_bins, t_start, rule, assumptions, e
         'assumptions': assumptions, 'wall_s': round(time.time() - t_start, 2),
         'violations': len(new_viol),
     }
-    with open(os.path.join(ROOT, 'evidence', pid + '.json'), 'w') as fh:
+    with open(os.path.join(OUT, 'evidence', pid + '.json'), 'w') as fh:
         json.dump(ev, fh, indent=1, sort_keys=True)
     for what, n in sorted(known_hits.items()):
         print('KNOWN-FINDING: property=%s %s (%d executions)' % (pid, what, n))
